@@ -13,9 +13,10 @@ One worker process owns one root directory under /var/tmp:
 A *case description* (JSON) says what the deterministic command does:
 
     {'out': [tok, ...], 'err': [tok, ...],          lines on stdout / stderr
-     'files': [{'kind': 'text', 'sub': 0|1|2, 'lines': [tok]}],  place: working
-                                   directory, sub/, gentest's $TMPDIR
-     'spec': 'none' | 'dir' | 'explicit' | 'glob',  how outputs are named
+     'files': [{'kind': 'text', 'sub': 0..5, 'name': ..., 'lines': [tok]}],
+                  place (see PLACES): working directory, sub/, gentest's
+                  $TMPDIR, alt/, sibling directory <cwd>_out, elsewhere
+     'spec': 'none' | 'dir' | 'explicit' | 'relative' | 'absolute' | 'glob',
      'status': 0 | 3, 'iters': 1|2|3,
      'no_stdout': 0|1, 'no_stderr': 0|1, 'nonzero': 0|1,
      'script': 'rel' | 'abs' | 'bare' | 'nopfx',
@@ -97,6 +98,19 @@ FILE_KINDS = {
     'json':  ('o.json', b'{"a": [1, 2]}\n'),
     'latin': ('o.dat', b'caf\xe9 au lait\n'),
     'zero':  ('o.log', b''),
+}
+
+# where an output file is written: code -> (directory relative to the working
+# directory, the same as emit.sh spells it).  The working directory is
+# <root>/w, so <root>/w_out is a sibling whose name extends the cwd's name.
+PLACES = {
+    0: ('', '.'),                                   # working directory
+    1: ('sub', 'sub'),                              # sub-directory
+    2: (os.path.join('..', 'gtmp'), '$TMPDIR'),     # gentest's $TMPDIR
+    3: ('alt', 'alt'),                              # a second sub-directory
+    4: (os.path.join('..', 'w_out'), os.path.join('..', 'w_out')),
+    5: (os.path.join('..', 'else', 'deep'),         # elsewhere, absolute
+        os.path.join('..', 'else', 'deep')),
 }
 
 BYSTANDERS = [
@@ -192,11 +206,18 @@ def audited():
 
 
 # --------------------------------------------------------------- snapshots
-def snapshot(top):
+def snapshot(top, extra=()):
     """{relative path: (sha1, size, mtime_ns, inode)} for files,
-    {relative path + '/': None} for directories."""
+    {relative path + '/': None} for directories; `extra` directories are
+    included with paths relative to top ('../w_out/keep.txt')."""
     out = {}
-    for d, dirs, files in os.walk(top):
+    for t in (top,) + tuple(extra):
+        _snap_into(out, t, top)
+    return out
+
+
+def _snap_into(out, walk_top, top):
+    for d, dirs, files in os.walk(walk_top):
         dirs.sort()
         for n in dirs:
             out[os.path.relpath(os.path.join(d, n), top) + '/'] = None
@@ -210,7 +231,6 @@ def snapshot(top):
                 h = 'special'
             out[os.path.relpath(p, top)] = (h, st.st_size, st.st_mtime_ns,
                                             st.st_ino)
-    return out
 
 
 def _letters(n):
@@ -264,7 +284,10 @@ class Harness(object):
         self.gtmp = os.path.join(root, 'gtmp')
         self.tmp = os.path.join(root, 'tmp')
         self.fail = os.path.join(root, 'fail')
-        for d in (self.box_dir, self.gtmp, self.tmp, self.fail):
+        self.sib_dir = os.path.join(root, 'w_out')
+        self.else_dir = os.path.join(root, 'else')
+        for d in (self.box_dir, self.gtmp, self.tmp, self.fail,
+                  self.sib_dir, self.else_dir):
             os.mkdir(d)
         self.start_cwd = os.getcwd()
         os.environ['TMPDIR'] = self.tmp
@@ -378,10 +401,10 @@ class Harness(object):
         for i, f in enumerate(case.get('files') or []):
             name, content = FILE_KINDS[f['kind']]
             name = f.get('name') or name
-            place = f.get('sub') or 0          # 0 cwd, 1 sub/, 2 $TMPDIR
-            rel = (name, os.path.join('sub', name),
-                   os.path.join('..', 'gtmp', name))[place]
-            target = '"$TMPDIR/%s"' % name if place == 2 else rel
+            place = f.get('sub') or 0
+            reldir, shdir = PLACES[place]
+            rel = os.path.join(reldir, name)
+            target = '"%s"' % os.path.join(shdir, name)
             if content is None:
                 content = self.text(f.get('lines') or ['plain'])
             dname = 'd_f%d.dat' % i
@@ -395,19 +418,30 @@ class Harness(object):
                                                           target))
         sh.append('read s < d_status.dat')
         sh.append('exit $s')
-        if not os.path.isdir(os.path.join(b.cwd, 'sub')):
-            os.mkdir(os.path.join(b.cwd, 'sub'))
+        for d in ('sub', 'alt'):
+            if not os.path.isdir(os.path.join(b.cwd, d)):
+                os.mkdir(os.path.join(b.cwd, d))
+        for d in (self.sib_dir, self.else_dir):
+            self._empty(d)
+        os.mkdir(os.path.join(self.else_dir, 'deep'))
+        for d in (self.sib_dir, os.path.join(self.else_dir, 'deep')):
+            with open(os.path.join(d, 'keep.txt'), 'wb') as f:
+                f.write(b'bystander outside the working directory\n')
+        outputs = set(rel for rel, _, _ in b.files)
         if not wipe:
+            # leftovers of the earlier command: its data files always go;
+            # its outputs stay (as bystanders) unless a glob would match them
             for n in os.listdir(b.cwd):
                 if n.startswith('d_f') and n not in b.data:
                     os.unlink(os.path.join(b.cwd, n))
             if case.get('spec') == 'glob':
-                keep = set(rel for rel, _, _ in b.files)
-                for d in ('', 'sub'):
+                for d in ('', 'sub', 'alt'):
                     for n in os.listdir(os.path.join(b.cwd, d)):
                         rel = os.path.join(d, n)
-                        if n.startswith('o') and rel not in keep and \
-                                os.path.isfile(os.path.join(b.cwd, rel)):
+                        if os.path.isfile(os.path.join(b.cwd, rel)) \
+                                and rel not in outputs \
+                                and not n.startswith(('d_', 'keep.', 'test_'))\
+                                and n != 'emit.sh':
                             os.unlink(os.path.join(b.cwd, rel))
         for rel, content in BYSTANDERS:
             with open(os.path.join(b.cwd, rel), 'wb') as f:
@@ -418,30 +452,39 @@ class Harness(object):
         with open(os.path.join(b.cwd, 'emit.sh'), 'w') as f:
             f.write('\n'.join(sh) + '\n')
         if case.get('pre'):
+            # the command was tried by hand before gentest is run
             for rel, dname, kind in b.files:
                 with open(os.path.join(b.cwd, rel), 'wb') as f:
                     f.write(self.expected_file(b, dname, self.gtmp))
         # how the outputs are named to gentest
         spec = case.get('spec', 'none')
         rels = [rel for rel, _, _ in b.files]
+
+        def absolute(r):
+            return os.path.normpath(os.path.join(b.cwd, r))
+
+        def pattern(r):
+            d, n = os.path.split(r)
+            if d.startswith('..'):
+                d = absolute(d)
+            if n.startswith('o.'):
+                return os.path.join(d, 'o.*')
+            if n == 'o':
+                return os.path.join(d, 'o*')
+            return os.path.join(d, n[0] + '?' + n[2:])
         if spec == 'none':
             b.file_args = []
         elif spec == 'dir':
             b.file_args = ['.']
         elif spec == 'explicit':
-            b.file_args = [os.path.normpath(os.path.join(b.cwd, r))
-                           if r.startswith('..') else r for r in rels]
-        elif spec == 'absolute':
-            b.file_args = [os.path.normpath(os.path.join(b.cwd, r))
+            b.file_args = [absolute(r) if r.startswith('..') else r
                            for r in rels]
+        elif spec == 'relative':
+            b.file_args = list(rels)
+        elif spec == 'absolute':
+            b.file_args = [absolute(r) for r in rels]
         elif spec == 'glob':
-            def gdir(r):
-                d = os.path.dirname(r)
-                return self.gtmp if d.startswith('..') else d
-            b.file_args = sorted(set(os.path.join(gdir(r), 'o.*')
-                                     if '.' in os.path.basename(r)
-                                     else os.path.join(gdir(r), 'o*')
-                                     for r in rels))
+            b.file_args = sorted(set(pattern(r) for r in rels))
         else:
             raise ValueError(spec)
         sc = case.get('script', 'rel')
@@ -452,6 +495,9 @@ class Harness(object):
         b.script = os.path.join(b.cwd, 'test_%s.py' % SCRIPT_STEM)
         b.refdir = os.path.join(b.cwd, 'ref', SCRIPT_STEM)
         return b
+
+    def snap(self, b):
+        return snapshot(b.cwd, (self.sib_dir, self.else_dir))
 
     def expected_stdout(self, b, tmpdir):
         return b.data['d_out.dat'].replace(TMP_MARK.encode(),
